@@ -23,6 +23,7 @@ META = {
     "not_decided": "that the kept-index list is sorted at all times (partition_point's precondition) and applicability of every emitted diff (arithmetic)",
 }
 META["explanation"] += ' R10.9 the constructors number the initial items with enumerate() applied below any filter (positions in the source, not in the filtered output).'
+META["explanation"] += " R10.4 also checks the order of the two effects (the new item's entry is recorded after the shift, or outside its range) and that a path bypassing the shift loop has established `last kept index < index` strictly (path-sensitive facts)."
 
 PAIR = lambda n: re.sub(r"_filter(_map)?$", "", n or "")
 
